@@ -194,6 +194,20 @@ theorem select_send_isolated_now :
     ((run Generated.C08.closureWrites sProg [⟨0, 0⟩, ⟨1, 0⟩, ⟨0, 0⟩, ⟨1, 0⟩] sState).heap 1).buf = [9] := by
   rw [closurewrites_tie]; decide
 
+/-- two workers run `for v := range own { fmt.Println(v) }`, each over a private, filled and closed channel -/
+def rProg : List Stmt := [.range 0 0 3, .print 0, .jmp 0, .halt]
+def rState : State := mkState [mkAct [0] [0], mkAct [0] [1]] [⟨[10], 1, true⟩, ⟨[20], 1, true⟩]
+
+/-- the model is not specific to `select`: ANY statement kind whose generator is listed in the table shares its
+    operand variables.  With the table of the current source the two ranging workers are isolated; a generator
+    `rangeChan` that kept its select cases in a generator-level variable (table entry `rangeChan: cases`) would let
+    worker 0 receive worker 1's value under the schedule fill-fill-commit -/
+theorem range_isolated_now_and_shared_witness :
+    trace 0 (run Generated.C08.closureWrites rProg xSched rState) = [10] ∧
+    trace 0 (run [("rangeChan", ["cases"])] rProg xSched rState) = [20] ∧
+    trace 0 (runSolo [("rangeChan", ["cases"])] rProg 0 xSched rState) = [10] := by
+  rw [closurewrites_tie]; decide
+
 /-- programs without a `select` statement: the domain on which isolation held with the old table -/
 def NoSelect (prog : List Stmt) : Bool := prog.all (fun s => !s.isSelect)
 
